@@ -266,6 +266,24 @@ class FsSeam:
 
         hs.open = open_  # a module global shadows the builtin inside halmos.solve only
         self._undo.append((hs, "open", None))
+
+        # the <dump dir>-timeout / -error directories halmos.__main__ creates for failed queries (kind 'debugdir')
+        import halmos.__main__ as hm
+
+        real_os = hm.os
+
+        class OsProxy:
+            def __getattr__(self, name):
+                return getattr(real_os, name)
+
+            def makedirs(self, path, *a, **kw):
+                if str(path).endswith(("-timeout", "-error")) and seam.plan(str(path), "debugdir"):
+                    seam.sim.fault("fs_debugdir_enospc")
+                    raise OSError(errno.ENOSPC, "No space left on device", str(path))
+                return real_os.makedirs(path, *a, **kw)
+
+        hm.os = OsProxy()
+        self._undo.append((hm, "os", real_os))
         return self
 
     def remove(self):
